@@ -15,6 +15,7 @@ pub mod c13;
 pub mod c14;
 pub mod c15;
 pub mod c16;
+pub mod c18;
 pub mod c20;
 
 pub fn run(ctx: &mut Ctx) -> bool {
@@ -34,6 +35,7 @@ pub fn run(ctx: &mut Ctx) -> bool {
         "C14" => c14::run(ctx),
         "C15" => c15::run(ctx),
         "C16" => c16::run(ctx),
+        "C18" => c18::run(ctx),
         "C20" => c20::run(ctx),
         _ => return false,
     }
